@@ -5,9 +5,22 @@ This module provides misc utility functions.
 
 Author: Wolfgang Maier <maierw@hhu.de>
 """
+import re
+import string
 import tempfile
 import gzip
 from itertools import zip_longest
+
+
+def split_fields(line):
+    """Split a line of a whitespace-separated file into its fields.
+    Fields are separated by blanks and tabs; other space characters,
+    e.g., a no-break space, are part of a field.
+    """
+    line = line.strip(string.whitespace)
+    if len(line) == 0:
+        return []
+    return re.split(u"[%s]+" % string.whitespace, line)
 
 
 def get_doc(funs):
